@@ -2354,13 +2354,20 @@ class DiskObjectStore(PackBasedObjectStore):
             # That must not keep the rejected pack from being removed.
             with suppress(BufferError):
                 final_pack.close()
-            with suppress(FileNotFoundError):
-                os.remove(target_pack_path)
-            with suppress(FileNotFoundError):
-                os.remove(target_index_path)
-            if self.pack_write_bitmaps and refs:
-                with suppress(FileNotFoundError):
-                    os.remove(pack_base_name + ".bitmap")
+            # The index goes first: without it the pack is invisible. Each
+            # removal is attempted whatever happened to the others, so that
+            # an error while removing one file (which is then lost in favour
+            # of the error being handled), or an interrupt arriving there,
+            # cannot leave the rejected pack installed.
+            try:
+                with suppress(OSError):
+                    os.remove(target_index_path)
+            finally:
+                with suppress(OSError):
+                    os.remove(target_pack_path)
+                if self.pack_write_bitmaps and refs:
+                    with suppress(OSError):
+                        os.remove(pack_base_name + ".bitmap")
             raise
         # _pack_cache is keyed by the full basename (/path/to/pack-HASH -> pack-HASH)
         self._add_cached_pack(os.path.basename(pack_base_name), final_pack)
